@@ -39,6 +39,10 @@ type RunOpts struct {
 	FocusPaths []string
 	// hook invoked after each op (property specific checks)
 	AfterOp func(e *Env, i int, op *Op)
+	// hook invoked before each op
+	BeforeOp func(e *Env, i int, op *Op)
+	// hook invoked with the fresh root before the database is opened
+	PreOpen func(root string)
 	// virtual clock available (inst build): tick ops advance it
 	Virtual bool
 	// record observations in the trace (C12)
@@ -166,6 +170,9 @@ func NewEnv(t TB, prog *Program, opts RunOpts) *Env {
 	e.root = newRoot()
 	e.m = NewModel(e.cfg)
 	sod.LowercaseNames = e.cfg.Lower
+	if opts.PreOpen != nil {
+		opts.PreOpen(e.root)
+	}
 	e.db = sod.Open(e.root)
 	if err := e.db.Create(&Doc{}, e.cfg.Schema()); err != nil {
 		e.failf("Create: %v", err)
@@ -639,6 +646,14 @@ func diffObs(got, want Obs) []string {
 
 func indent(s string) string { return strings.ReplaceAll(s, "\n", "\n         ") }
 
+// Diff returns the read paths on which the live handle differs from the model.
+func (e *Env) Diff() []string {
+	qs := e.sweepQueries()
+	got := e.Observe(e.db, qs)
+	want := e.Expect(qs)
+	return diffObs(got, want)
+}
+
 // Check compares the live handle with the model on every read path.
 func (e *Env) Check(where string) {
 	qs := e.sweepQueries()
@@ -975,6 +990,8 @@ func (e *Env) Exec(i int, op *Op) bool {
 		if err := e.db.Commit(&Doc{}); err != nil {
 			e.failf("%s: Commit: %v", what, err)
 		}
+	case "tick":
+		// virtual time: advanced by the property's AfterOp hook (instrumented build)
 	case "snapshot":
 		e.execSnapshot(what, op)
 	case "check":
@@ -1490,6 +1507,9 @@ func (e *Env) reopen(what string, abandon bool) {
 func (e *Env) Run() {
 	for i := range e.prog.Ops {
 		op := &e.prog.Ops[i]
+		if e.opts.BeforeOp != nil {
+			e.opts.BeforeOp(e, i, op)
+		}
 		applied := e.Exec(i, op)
 		if e.opts.AfterOp != nil {
 			e.opts.AfterOp(e, i, op)
